@@ -308,10 +308,12 @@ class Interp:
             # a loop whose body has no events is irrelevant; otherwise unknown
             if self.has_events(n[2]):
                 raise Unknown(f"loop with stream/accounting events at line {n[1]}")
+            self.havoc(n[2], st)
             return [(st, None)]
         if k == "closure":
             if self.has_events(n[4]):
                 raise Unknown(f"closure with stream/accounting events outside a recognised combinator, line {n[1]}")
+            self.havoc(n[4], st)
             return [(st, None)]
         if k in ("assign", "assignop"):
             rhs = n[3] if k == "assign" else n[4]
@@ -340,6 +342,25 @@ class Interp:
         if k in ("bin", "lit", "cast", "path", "field"):
             return [(s0, self.poly(n, s0)) for s0 in states]
         return [(s0, val) for s0 in states]
+
+    def havoc(self, n, st):
+        """forget what is known about buffers / locals that a skipped loop or closure body may change"""
+        for x in H.walk(n):
+            if H.kind(x) == "mcall":
+                pt = place_text(x[4])
+                if pt:
+                    st.size.pop(pt, None)
+                for a in x[5]:
+                    a0 = H.peel(a)
+                    pt = place_text(a0)
+                    if pt:
+                        st.size.pop(pt, None)
+            if H.kind(x) in ("assign", "assignop"):
+                lhs = x[2] if H.kind(x) == "assign" else x[3]
+                p = H.path_of(lhs)
+                if p:
+                    st.env.pop(p, None)
+                    st.size.pop(p, None)
 
     def has_events(self, n):
         for x in H.walk(n):
